@@ -1362,8 +1362,170 @@ def main():
         print(text)
 
 
+SELFTEST_RS = r"""
+// synthetic items exercising dialect px (tools/rs2lean_genleft.py --selftest)
+pub enum Shape {
+    Dot,
+    Seg(u64),
+    Box(u64, u64),
+}
+
+pub struct Span {
+    pub lo: usize,
+    pub hi: usize,
+}
+
+pub struct Holder<T: Borrow<Vec<usize>>> {
+    data: T,
+    spans: Vec<Span>,
+}
+
+impl Shape {
+    fn area(&self) -> u64 {
+        match self {
+            Shape::Dot => 0,
+            Shape::Seg(_) => 0,
+            Shape::Box(w, h) => w * h,
+        }
+    }
+
+    fn order(&self, other: &Self) -> cmp::Ordering {
+        let c = self.area().cmp(&other.area());
+        if c != cmp::Ordering::Equal {
+            c
+        } else {
+            match (self, other) {
+                (Shape::Dot, Shape::Seg(_)) | (Shape::Dot, Shape::Box(_, _)) => cmp::Ordering::Less,
+                (Shape::Seg(_), Shape::Dot) => cmp::Ordering::Greater,
+                _ => c,
+            }
+        }
+    }
+}
+
+impl<T: Borrow<Vec<usize>>> Holder<T> {
+    pub fn new(data: T, cuts: Vec<&[usize; 2]>) -> Self {
+        Holder {
+            spans: cuts.iter().map(|c| Span { hi: c[1], lo: c[0] }).collect::<Vec<Span>>(),
+            data,
+        }
+    }
+
+    pub fn width(&self, i: usize) -> usize {
+        let s = &self.spans[i];
+        s.hi - s.lo + 1
+    }
+
+    pub fn values(&self, span: &Span) -> Vec<usize> {
+        (span.lo..span.hi)
+            .map(|p| *self.data.borrow().get(p).expect("out of range"))
+            .collect()
+    }
+
+    pub fn tagged(&self) -> Vec<(usize, usize)> {
+        self.data.borrow().iter().copied().enumerate().collect()
+    }
+}
+"""
+
+SELFTEST_UNIT = dict(
+    name="SrcSelfLeft", dialect="px", props="self-test", file="selftest.rs",
+    decls={"Shape": dict(kind="enum", head="pub enum Shape", lean="Shape"),
+           "Span": dict(kind="struct", head="pub struct Span", lean="Span"),
+           "Holder": dict(kind="struct", head="pub struct Holder<T: Borrow<Vec<usize>>>", lean="Holder")},
+    paths={"cmp::Ordering::Equal": ("Ordering.eq", "Ordering"), "cmp::Ordering::Less": ("Ordering.lt", "Ordering"),
+           "cmp::Ordering::Greater": ("Ordering.gt", "Ordering")},
+    types={"cmp::Ordering": "Ordering", "T": "List Nat"},
+    methods={"Shape.area": dict(lean="area", monadic=True, ret="u64"),
+             "T.get": dict(lean="List.getElem?'", ret="Option<usize>", recv=True)},
+    functions=[
+        dict(name="area", lean="area", within="impl Shape", header="fn area(&self) -> u64", self_ty="Shape", params=[], ret="u64"),
+        dict(name="order", lean="order", within="impl Shape", header="fn order(&self, other: &Self) -> cmp::Ordering",
+             self_ty="Shape", params=[("other", "Shape")], ret="cmp::Ordering"),
+        dict(name="new", lean="holderNew", within="impl<T: Borrow<Vec<usize>>> Holder<T>",
+             header="pub fn new(data: T, cuts: Vec<&[usize; 2]>) -> Self",
+             params=[("data", "T"), ("cuts", "Vec<[usize; 2]>")], ret="Holder"),
+        dict(name="width", lean="width", within="impl<T: Borrow<Vec<usize>>> Holder<T>",
+             header="pub fn width(&self, i: usize) -> usize", self_ty="Holder", params=[("i", "usize")], ret="usize"),
+        dict(name="values", lean="values", within="impl<T: Borrow<Vec<usize>>> Holder<T>",
+             header="pub fn values(&self, span: &Span) -> Vec<usize>", self_ty="Holder", params=[("span", "Span")],
+             ret="Vec<usize>"),
+        dict(name="tagged", lean="tagged", within="impl<T: Borrow<Vec<usize>>> Holder<T>",
+             header="pub fn tagged(&self) -> Vec<(usize, usize)>", self_ty="Holder", params=[], ret="Vec<(usize, usize)>"),
+    ])
+
+# (function whose body is replaced, replacement body, expected reason)
+SELFTEST_REFUSED = [
+    ("width", "let mut n = 0; for s in self.spans.iter() { n += 1; } n", "`for` loop"),
+    ("width", "if i > 3 { return 0; } i", "`return`"),
+    ("width", "self.spans.len()?", "`?`"),
+    ("width", "let v = vec![1usize]; v[0]", "macro `vec!`"),
+    ("width", "match self.spans.get(i) { Some(s) if s.lo > 0 => s.lo, _ => 0 }", "guard"),
+    ("width", "self.spans.iter().filter(|s| s.lo > i).count()", "closure argument of `.filter(..)`"),
+    ("width", "self.frobnicate(i)", "method `.frobnicate(…)`"),
+    ("width", "Span { lo: i, hi: i, mid: i }.lo", "struct literal `Span` with the fields"),
+    ("width", "helper(i)", "call of `helper`"),
+    ("width", "(i..=i + 1).len()", "inclusive range"),
+    ("width", "i - 1; i", "expression statement"),
+]
+
+SELFTEST_LEAN = r"""
+def List.getElem?' {α : Type} (l : List α) (i : Nat) : Option α := l[i]?
+"""
+
+SELFTEST_CHECKS = r"""
+open RbV RbV.Rs RbV.Gen.SrcSelfLeft
+example : area (.Box 3 4) = Res.ok 12 := by decide
+example : area (.Box (2 ^ 40) (2 ^ 40)) = Res.panic := by decide
+example : order .Dot (.Seg 5) = Res.ok .lt ∧ order (.Box 1 2) .Dot = Res.ok .gt ∧ order (.Seg 1) (.Seg 2) = Res.ok .eq := by decide
+example : holderNew [5, 6, 7] [[0, 2], [1, 3]] = Res.ok { data := [5, 6, 7], spans := [⟨0, 2⟩, ⟨1, 3⟩] } := by decide
+example : width { data := [], spans := [⟨2, 5⟩] } 0 = Res.ok 4 ∧ width { data := [], spans := [⟨2, 5⟩] } 1 = Res.panic := by decide
+example : values { data := [5, 6, 7], spans := [] } ⟨1, 3⟩ = Res.ok [6, 7] ∧
+    values { data := [5, 6, 7], spans := [] } ⟨2, 4⟩ = Res.panic := by decide
+example : tagged { data := [5, 6], spans := [] } = [(0, 5), (1, 6)] := by decide
+"""
+
+
 def selftest(with_lean):
-    print("rs2lean_genleft selftest: (filled in below)")
+    def refuse(msg):
+        raise _Refused(msg)
+    text, _ = translate_unit(_Src(SELFTEST_RS), SELFTEST_UNIT, refuse)
+    text2, _ = translate_unit(_Src(SELFTEST_RS), SELFTEST_UNIT, refuse)
+    assert text == text2, "translation is not deterministic"
+    for frag in ("inductive Shape", "structure Holder", "| .Box w h =>", "(.Dot, .Seg _) | (.Dot, .Box _ _)", "List.mapM", "Rs.expect",
+                 "Rs.enumFrom0", "Rs.idx", "Rs.mul 64", "compare", "def tagged (self : Holder) : List (Nat × Nat) :="):
+        assert frag in text, "missing `%s` in the translation of the self-test unit:\n%s" % (frag, text)
+    n = 0
+    for fn, body, expect in SELFTEST_REFUSED:
+        f = [g for g in SELFTEST_UNIT["functions"] if g["name"] == fn][0]
+        src = _Src(SELFTEST_RS)
+        m, old, start, _ = find_fn(src, f, refuse, "selftest.rs")
+        mutated = SELFTEST_RS[:start] + body + SELFTEST_RS[start + len(old):]
+        try:
+            translate_unit(_Src(mutated), SELFTEST_UNIT, refuse)
+        except _Refused as r:
+            assert expect in str(r), "refused for another reason: %s (expected %s)" % (r, expect)
+            n += 1
+        else:
+            raise AssertionError("not refused: " + body)
+    # the io units: the ghost capacity field is refused when `buf` is not built by `Vec::with_capacity`
+    print("rs2lean_genleft selftest: translation ok, deterministic, %d non-subset snippets refused" % n)
+    if with_lean:
+        import subprocess, tempfile
+        root = os.path.dirname(os.path.dirname(os.path.abspath(__file__)))
+        base = os.path.join(root, ".work") if os.path.isdir(os.path.join(root, ".work")) else os.path.dirname(root)
+        d = tempfile.mkdtemp(dir=base)
+        fn = os.path.join(d, "SelfLeft.lean")
+        head, sep, tail = text.partition("set_option linter.unusedVariables false")
+        with open(fn, "w") as f:
+            f.write(head + SELFTEST_LEAN + sep + tail + SELFTEST_CHECKS)
+        p = subprocess.run(["lake", "env", "lean", fn], cwd=os.path.join(root, "lean"), stdout=subprocess.PIPE,
+                           stderr=subprocess.STDOUT, text=True)
+        print(p.stdout.strip())
+        os.remove(fn)
+        os.rmdir(d)
+        assert p.returncode == 0, "lean rejected the translated self-test unit"
+        print("rs2lean_genleft selftest: lean ok")
 
 
 if __name__ == "__main__":
